@@ -4,6 +4,7 @@ import (
 	"fmt"
 	"os"
 	"path/filepath"
+	"runtime"
 	"sort"
 	"strings"
 	"sync"
@@ -39,7 +40,7 @@ func inScratch(f func() error) (files map[string]string, err error) {
 	func() {
 		defer func() {
 			if r := recover(); r != nil {
-				err = fmt.Errorf("panic: %v", r)
+				err = fmt.Errorf("panic: %v at %s", r, repoFrame())
 			}
 		}()
 		err = f()
@@ -61,6 +62,23 @@ func inScratch(f func() error) (files map[string]string, err error) {
 		return nil
 	})
 	return files, werr
+}
+
+// repoFrame names the innermost /repo function on the stack of a recovered panic.
+func repoFrame() string {
+	pcs := make([]uintptr, 64)
+	n := runtime.Callers(3, pcs)
+	fr := runtime.CallersFrames(pcs[:n])
+	for {
+		f, more := fr.Next()
+		if strings.Contains(f.Function, "BondMachine/pkg/") {
+			fn := f.Function[strings.LastIndex(f.Function, "/")+1:]
+			return fmt.Sprintf("%s (%s:%d)", fn, filepath.Base(f.File), f.Line)
+		}
+		if !more {
+			return "?"
+		}
+	}
 }
 
 // hdlBM is `bondmachine -create-verilog -verilog-flavor iverilog` (cmd/bondmachine/bondmachine.go:719):
